@@ -1,55 +1,23 @@
 """Which units / harnesses carry which property.  (Obligations are selected by tag inside a unit.)
 
-k_groups: list of dicts {module, harnesses:[(name, kind)], tier    'C14': {
-        'title': 'Layout trivia never changes results and diagnostics track source positions',
-        'v_units': ['source_manager', 'token_stream'],
-        # API-driven bounded harness: keeps deciding (and gives a concrete input) when get_file_location is rewritten
-        'k_groups': [{'module': 'text/location.rs', 'harnesses': [('c14_get_file_location_bounded', 'bounded:2 files of <= 3 and <= 2 bytes, 2 queries')], 'tier': 'quick'}],
-        'design_ref': 'DESIGN.md §3 C14',
-    },
-    'C19': {
-        'title': 'Layout-consistency validation is sound',
-        'v_units': ['layout'],
-        'k_groups': [],
-        'design_ref': 'DESIGN.md §3 C19',
-    },
-}
-  kind: 'complete'  loop-free (or loops bounded by the input *type*) over the full domain of symbolic inputs
-        'bounded:<what>' bounded stand-in, never counted as proved
+v_units : Verus units (units/<name>/unit.rs.in); functions tagged with the property id carry its obligations
+k_groups: list of dicts {module, harnesses: [(name, kind)], tier}
+  kind: 'complete'        loop-free (or loops bounded by the input *type*) over the full domain of symbolic inputs
+        'bounded:<what>'  bounded stand-in, listed under bounded_not_counted, never counted as proved
+  tier: 'quick' runs in both tiers, 'thorough' only in the thorough tier
 """
 
 C13_OPS = ['prefix_increment', 'prefix_decrement', 'postfix_increment', 'postfix_decrement', 'plus', 'minus',
            'logical_not', 'bitwise_not', 'add', 'subtract', 'multiply', 'divide', 'modulus', 'left_shift',
            'right_shift', 'bitwise_and', 'bitwise_or', 'bitwise_xor', 'boolean_and', 'boolean_or', 'less_than',
            'less_equal', 'greater_than', 'greater_equal', 'equality', 'inequality']
+# 128-bit / 32-bit multiplier and divider equivalence does not finish in CBMC (see DESIGN.md I.3): being sized
+C13_HEAVY = ('multiply', 'divide', 'modulus')
+
+ALL_V_UNITS = ['cond_chain', 'cond_parser', 'bindings', 'lexer_digits', 'token_stream', 'source_manager', 'layout',
+               'hlsl_bindings', 'hlsl_analyse', 'hlsl_expr', 'hlsl_literal']
 
 PROPS = {
-    'C07': {
-        'title': 'Compilation is deterministic',
-        'v_units': ['bindings'],
-        'k_groups': [],
-        'design_ref': 'DESIGN.md §3 C07',
-    },
-    'C08': {
-        'title': 'Compilation is total: every input yields a result or a rendered diagnostic',
-        # roll-up: panic / overflow / bounds freedom of every function under contract (tag C08 in each unit)
-        'v_units': ['cond_chain', 'cond_parser', 'bindings', 'lexer_digits', 'token_stream', 'source_manager', 'layout', 'hlsl_bindings', 'hlsl_analyse', 'hlsl_expr', 'hlsl_literal'],
-        'k_groups': [],
-        'design_ref': 'DESIGN.md §3 C08',
-    },
-    'C10': {
-        'title': 'Lexing is lossless and numeric literals are exact',
-        'v_units': ['lexer_digits', 'token_stream', 'source_manager'],
-        'k_groups': [{'module': 'text/location.rs', 'harnesses': [('c10_location_table_inverse_bounded', 'bounded:2 files of <= 3 and <= 2 bytes')], 'tier': 'quick'}],
-        'design_ref': 'DESIGN.md §3 C10',
-    },
-    'C11': {
-        'title': 'Conditional compilation selects exactly the branches C semantics select',
-        'v_units': ['cond_chain', 'cond_parser'],
-        # discharges the assumed is_active contract on the real function and survives representation changes (21 min: thorough only)
-        'k_groups': [{'module': 'preprocess/preprocess.rs', 'harnesses': [('c11_condition_chain_sequence_bounded', 'bounded:operation sequences of length 5')], 'tier': 'thorough'}],
-        'design_ref': 'DESIGN.md §3 C11',
-    },
     'C01': {
         'title': 'HLSL export preserves the meaning of every accepted program',
         'v_units': ['hlsl_expr', 'hlsl_literal'],
@@ -65,31 +33,70 @@ PROPS = {
     'C06': {
         'title': 'Binding slots are allocated completely, contiguously and without overlap',
         'v_units': ['bindings'],
+        # discharges the contract the Verus unit assumes for TypeLayer::is_object (reference pattern)
+        'k_groups': [{'module': 'ir/ir_types.rs', 'harnesses': [('c06_is_object_contract', 'complete')], 'tier': 'quick'}],
+        'design_ref': 'DESIGN.md Part I, I.4 (C06)',
+    },
+    'C07': {
+        'title': 'Compilation is deterministic',
+        'v_units': ['bindings'],
         'k_groups': [],
-        'design_ref': 'DESIGN.md §3 C06',
+        'design_ref': 'DESIGN.md Part I, I.4 (C07)',
+    },
+    'C08': {
+        'title': 'Compilation is total: every input yields a result or a rendered diagnostic',
+        # roll-up: panic / overflow / bounds freedom of every function under contract (tag C08 in each unit)
+        'v_units': ALL_V_UNITS,
+        'k_groups': [],
+        'design_ref': 'DESIGN.md Part I, I.4 (C08)',
+    },
+    'C10': {
+        'title': 'Lexing is lossless and numeric literals are exact',
+        'v_units': ['lexer_digits', 'token_stream', 'source_manager'],
+        'k_groups': [
+            {'module': 'text/location.rs',
+             'harnesses': [('c10_location_table_inverse_bounded', 'bounded:2 files of <= 3 and <= 2 bytes')], 'tier': 'quick'},
+            {'module': 'preprocess/lexer.rs',
+             'harnesses': [('c10_int_type_suffix_table', 'complete'),
+                           ('c10_literal_int_dispatch_bounded', 'bounded:4-byte inputs, digit run <= 2')], 'tier': 'quick'},
+        ],
+        'design_ref': 'DESIGN.md Part I, I.4 (C10)',
+    },
+    'C11': {
+        'title': 'Conditional compilation selects exactly the branches C semantics select',
+        'v_units': ['cond_chain', 'cond_parser'],
+        # discharges the assumed is_active contract on the real function and survives representation changes (21 min: thorough only)
+        'k_groups': [{'module': 'preprocess/preprocess.rs',
+                      'harnesses': [('c11_condition_chain_sequence_bounded', 'bounded:operation sequences of length 5')],
+                      'tier': 'thorough'}],
+        'design_ref': 'DESIGN.md Part I, I.4 (C11)',
     },
     'C13': {
-        'enabled': False,
         'title': 'Compile-time constant evaluation matches run-time semantics',
         'v_units': [],
         'k_groups': [
             {'module': 'typer/evaluator.rs',
-             'harnesses': [('c13_op_' + o, 'complete') for o in C13_OPS] + [('c13_op_nonconstant_argument_propagates', 'complete')],
+             'harnesses': [('c13_op_' + o, 'complete') for o in C13_OPS if o not in C13_HEAVY]
+                          + [('c13_op_nonconstant_argument_propagates', 'complete')],
              'tier': 'quick'},
+            {'module': 'ir/ir_types.rs',
+             'harnesses': [('c13_to_uint64_is_the_nonnegative_integer_value', 'complete')], 'tier': 'quick'},
         ],
-        'design_ref': 'DESIGN.md §3 C13',
+        'design_ref': 'DESIGN.md Part I, I.4 (C13)',
     },
     'C14': {
         'title': 'Layout trivia never changes results and diagnostics track source positions',
         'v_units': ['source_manager', 'token_stream'],
         # API-driven bounded harness: keeps deciding (and gives a concrete input) when get_file_location is rewritten
-        'k_groups': [{'module': 'text/location.rs', 'harnesses': [('c14_get_file_location_bounded', 'bounded:2 files of <= 3 and <= 2 bytes, 2 queries')], 'tier': 'quick'}],
-        'design_ref': 'DESIGN.md §3 C14',
+        'k_groups': [{'module': 'text/location.rs',
+                      'harnesses': [('c14_get_file_location_bounded', 'bounded:2 files of <= 3 and <= 2 bytes, 2 queries')],
+                      'tier': 'quick'}],
+        'design_ref': 'DESIGN.md Part I, I.4 (C14)',
     },
     'C19': {
         'title': 'Layout-consistency validation is sound',
         'v_units': ['layout'],
         'k_groups': [],
-        'design_ref': 'DESIGN.md §3 C19',
+        'design_ref': 'DESIGN.md Part I, I.5',
     },
 }
